@@ -44,6 +44,8 @@ type checkCtx struct {
 	exhaustive          bool
 	extra               map[string]J
 
+	crashDiscard func(status, detail string) bool // record mode: dead/stuck workers that are not judged
+
 	violations []violation
 	knownLines []string
 	knownSeen  map[string]bool
